@@ -702,9 +702,11 @@ impl<'a> Searcher<'a> {
                                         let mut ok = false;
 
                                         if file_type.is_symlink() {
-                                            if let Ok(resolved) = std::fs::read_link(&path) {
-                                                ok = true;
-                                                path = resolved;
+                                            if let Ok(resolved) = fs::canonicalize(&path) {
+                                                if resolved.is_dir() {
+                                                    ok = true;
+                                                    path = resolved;
+                                                }
                                             }
                                         } else if file_type.is_dir() {
                                             ok = true;
